@@ -442,15 +442,21 @@ Fixpoint apply_vars (T : dimtab) (fs : list (name * afun)) (vs acc : vartab) : r
                    do v' <- putvar T (vdims v) (vattrs v) src false;
                    apply_vars T fs t (aset k v' acc)
   end.
+(* new length of one dimension: the function is probed on the coordinate variable (a 1-D variable named like the
+   dimension) or on arange(len) *)
+Definition apply_new1 (f : file) (p : name * afun) : res (name * nat) :=
+  match lookup (fst p) (fdims f) with
+  | None => Raise
+  | Some (n, _) =>
+      match afun_len (snd p) (match lookup (fst p) (fvars f) with
+                              | Some v => match vshape v with [m] => m | _ => n end
+                              | None => n end) with
+      | Some m => Ok (fst p, m)
+      | None => Raise
+      end
+  end.
 Definition impl_apply (f : file) (fs : list (name * afun)) : res file :=
-  do news <- mapM (fun p => match lookup (fst p) (fdims f) with
-                            | None => Raise
-                            | Some (n, _) =>
-                                let n0 := match lookup (fst p) (fvars f) with
-                                          | Some v => match vshape v with [m] => m | _ => n end
-                                          | None => n end in
-                                match afun_len (snd p) n0 with Some m => Ok (fst p, m) | None => Raise end
-                            end) fs;
+  do news <- mapM (apply_new1 f) fs;
   do T <- relen (fdims f) (fun d n => Ok (match lookup d news with Some c => c | None => n end));
   do vs <- apply_vars T fs (fvars f) [];
   Ok (File T vs (fattrs f) (fcoords f)).
